@@ -102,7 +102,7 @@ func c14MovementCase(entries []string, kind string, unroll int) *Case {
 		x.C.User["unroll"] = unroll
 	}
 	cs.Oracle = func(x *OracleCtx) *Violation {
-		res := x.Res["opt"]
+		res := x.Res[x.Case.Variants[0].Name]
 		if res.Err.Panic != "" {
 			return &Violation{Sub: "panic", Msg: res.Err.Panic}
 		}
@@ -348,7 +348,7 @@ func c14MartCase(entries []string, withConst bool) *Case {
 	prog := &Program{Atoms: atoms, Tops: tops}
 	cs := &Case{Name: fmt.Sprintf("c14/mart/%v/const=%v", entries, withConst), Prog: prog, Variants: optVariants[:1], NonTrivial: len(entries) > 0, Shape: c14Shape{Kind: "mart", Entries: entries, Const: withConst}, MaxPaths: 4096}
 	cs.Oracle = func(x *OracleCtx) *Violation {
-		res := x.Res["opt"]
+		res := x.Res[x.Case.Variants[0].Name]
 		if res.Err.Panic != "" {
 			return &Violation{Sub: "panic", Msg: res.Err.Panic}
 		}
@@ -407,6 +407,21 @@ func RunC14(env *Env, rep *Report) {
 		if len(l) <= 3 {
 			cases = append(cases, c14MartCase(l, true))
 		}
+	}
+	// the same with line markers on: the markers must not change which entry
+	// is taken for the terminator (the output is compared without its marker lines)
+	lmOpt := []Variant{{Name: "lm", Opt: CompileOpts{Optimize: true, LM: true, Path: "maps/in.pory"}}}
+	for _, l := range [][]string{{"s", "END", "s"}, {"s", "END"}, {"END"}, {"s", "s"}, {"s*N", "END", "s"}} {
+		for _, kind := range []string{"movement", "moves"} {
+			cs := c14MovementCase(l, kind, unroll)
+			cs.Variants, cs.Name = lmOpt, cs.Name+"/line-markers"
+			cases = append(cases, cs)
+		}
+	}
+	for _, l := range [][]string{{"i", "END", "i"}, {"i", "END"}, {"END"}, {"i", "i"}} {
+		cs := c14MartCase(l, false)
+		cs.Variants, cs.Name = lmOpt, cs.Name+"/line-markers"
+		cases = append(cases, cs)
 	}
 	// names that differ from the terminator only in letter case are ordinary
 	// items / steps
